@@ -373,14 +373,32 @@ def run_case(case):
     rc = recursion_cache()
     if rc is not None:
         rc.cache.clear()
+    # The history is replayed twice on fresh objects.  The FIRST replay is the history and nothing else: what is reported
+    # and compared is its outcome.  The second replay additionally evaluates every query on an unfrozen deep copy (the
+    # "shadow", which never sees a cache); copying and thawing are themselves accepted modifications of some model in
+    # the process (they advance the modification counter that invalidates every frozen cache), so they must not happen
+    # inside the replay whose caches are under test.  The direct outcomes of the second replay are reported as well
+    # (`with_shadow`): unrelated copies in between must not change any answer either.
     w = World(case)
     try:
-        return run_ops(w, case, rc)
+        res = run_ops(w, case, rc, shadows=False)
     finally:
         w.close()
+    if rc is not None:
+        rc.cache.clear()
+    w = World(case)
+    try:
+        res2 = run_ops(w, case, rc, shadows=True)
+    finally:
+        w.close()
+    for rec, rec2 in zip(res["outs"], res2["outs"]):
+        if "shadow" in rec2:
+            rec["shadow"] = rec2["shadow"]
+            rec["with_shadow"] = {"exc": rec2["exc"]} if "exc" in rec2 else {"ok": rec2.get("ok")}
+    return res
 
 
-def run_ops(w, case, rc):
+def run_ops(w, case, rc, shadows):
     outs = []
     for op in case["ops"]:
         rec = {}
@@ -400,7 +418,7 @@ def run_ops(w, case, rc):
                 rec["ctor"] = w.last_ctor
             if op[0] == "derive":
                 rec["flags"] = [bool(getattr(o, "_is_frozen", False)) for o in w.objs]
-        if op[0] == "query":
+        if op[0] == "query" and shadows:
             rec["shadow"] = w.shadow(w.objs[op[1]], op[2])
         outs.append(rec)
     frozen = [bool(getattr(o, "_is_frozen", False)) for o in w.objs]
